@@ -3,6 +3,7 @@
    metrics are weighted ratios in [0,1]) and the C02 lemmas (Aggregates_proofs: difference = max - min,
    ratio bounds) through a slicing lemma (columns sliced by a group mask = the rows of that group). *)
 From Coq Require Import QArith ZArith List Bool Lia Lra Psatz.
+From FL Require Disagg.
 From FL Require Import Num ListX BaseRates BaseRates_proofs Aggregates Aggregates_proofs Fairness.
 Import ListNotations.
 Open Scope Q_scope.
@@ -966,3 +967,46 @@ Proof.
   repeat split; [apply base_ok_sel | apply base_ok_tpr | apply base_ok_fpr | apply base_ok_tnr
                  | apply base_ok_fnr | apply base_ok_acc | apply base_ok_zol].
 Qed.
+
+Local Open Scope Z_scope.
+(* ------------------------------------------------------------------ *)
+(* bridge to the C01 model (FL.Disagg): for ONE sensitive column the   *)
+(* row mask that MetricFrame's group-by uses for the index key [g]     *)
+(* (Disagg.mask_of over Disagg.row_keys) is the mask of this model,    *)
+(* and both models slice a column with the same function               *)
+(* ------------------------------------------------------------------ *)
+
+Lemma row_keys_single (c : list Z) :
+  Disagg.row_keys [c] (length c) = map (fun s => [s]) c.
+Proof.
+  unfold Disagg.row_keys. induction c as [|s c IH]; [reflexivity|].
+  cbn [length repeat combine map fst snd]. f_equal. exact IH.
+Qed.
+
+Lemma key_eqb_single g s : key_eqb [g] [s] = (g =? s).
+Proof. rewrite Z.eqb_compare. unfold key_eqb, key_cmp. destruct (g ?= s); reflexivity. Qed.
+
+Theorem disagg_mask_eq g (sf : list Z) :
+  Disagg.mask_of [g] (Disagg.row_keys [sf] (length sf)) = map (Z.eqb g) sf.
+Proof.
+  rewrite row_keys_single. unfold Disagg.mask_of. rewrite map_map.
+  apply map_ext. intro s. apply key_eqb_single.
+Qed.
+
+Theorem disagg_sel_eq {A} (m : list bool) (c : list A) : Disagg.sel m c = sel m c.
+Proof. reflexivity. Qed.
+
+(* the index of the C01 by_group table for one sensitive column is the sorted unique group list *)
+Lemma kuniq_single (c : list Z) : kuniq (map (fun s => [s]) c) = map (fun s => [s]) (zuniq c).
+Proof.
+  unfold kuniq, zuniq. induction c as [|s c IH]; [reflexivity|]. cbn [map fold_right]. rewrite IH.
+  generalize (fold_right zinsert [] c). intro l. induction l as [|y l IHl]; [reflexivity|].
+  cbn [map kinsert zinsert key_cmp]. rewrite Z.eqb_compare. unfold Z.ltb. destruct (s ?= y) eqn:E; cbn [map]; try reflexivity.
+  f_equal. exact IHl.
+Qed.
+
+Theorem bridge_to_disagg :
+  (forall g (sf : list Z), Disagg.mask_of [g] (Disagg.row_keys [sf] (length sf)) = map (Z.eqb g) sf) /\
+  (forall (A : Type) (m : list bool) (c : list A), Disagg.sel m c = sel m c) /\
+  (forall c : list Z, kuniq (map (fun s => [s]) c) = map (fun s => [s]) (zuniq c)).
+Proof. split; [exact disagg_mask_eq | split; [intros; reflexivity | exact kuniq_single]]. Qed.
